@@ -4596,6 +4596,10 @@ def strings_astype(array, to, highlevel=True, behavior=None):
             or layout.parameter("__array__") == "bytestring"
         ):
             layout = without_parameters(layout, highlevel=False)
+            if len(layout) == 0:
+                return lambda: ak.layout.NumpyArray(
+                    ak.nplike.numpy.empty(0, dtype=to_dtype)
+                )
             max_length = ak.max(num(layout))
             regulararray = layout.rpad_and_clip(max_length, 1)
             maskedarray = ak.operations.convert.to_numpy(
